@@ -462,6 +462,34 @@ func (w *World) Compact(f *memfile.File) {
 	w.emit(Ev{"e": "Compact", "f": f.ID, "itemrecs": n})
 }
 
+// DropFile tells the specification that a file is no longer used.
+func (w *World) DropFile(f *memfile.File) {
+	if _, ok := w.files[f.ID]; !ok {
+		return
+	}
+	for _, h := range w.stores {
+		if h.File == f {
+			return
+		}
+	}
+	delete(w.files, f.ID)
+	w.emit(Ev{"e": "DropFile", "f": f.ID})
+}
+
+// CrashJunk: like Crash, with junk bytes appended to the image.
+func (w *World) CrashJunk(f *memfile.File, upto int, junk []byte) *memfile.File {
+	img := append(f.ImageAt(upto, 0), junk...)
+	var regs []memfile.Region
+	for _, r := range decoder.ValueRegions(img) {
+		regs = append(regs, memfile.Region{Off: r[0], End: r[1]})
+	}
+	g := memfile.FromImage(w.nextFile, img, regs)
+	w.nextFile++
+	w.files[g.ID] = g
+	w.emit(Ev{"e": "Crash", "f": f.ID, "f2": g.ID, "upto": upto, "torn": 0, "junk": len(junk), "len": len(img)})
+	return g
+}
+
 // Crash materialises the image after the first upto log entries (+ torn bytes
 // of the next write) as a new file.
 func (w *World) Crash(f *memfile.File, upto, torn int) *memfile.File {
